@@ -43,15 +43,15 @@ def dense_equal(got, want, sig, exact=True, scale=None, K=1, what=""):
         )
 
 
-def scalar_equal(got, want, sig, exact=True, scale=1.0, K=1, what=""):
+def scalar_equal(got, want, sig, exact=True, scale=1.0, K=1, what="",
+                 eps=None):
     g = complex(got)
     w = complex(want)
     if exact:
         ok = g == w
     else:
-        ok = abs(g - w) <= 64 * np.finfo("float64").eps * max(K, 1) * max(
-            scale, 1.0
-        )
+        ok = abs(g - w) <= 64 * (eps or np.finfo("float64").eps) * max(
+            K, 1) * max(scale, 1.0)
     if not ok:
         raise Discrepancy(sig, f"{what} scalar {got!r} != oracle {want!r}")
 
